@@ -122,7 +122,10 @@ Proof.
     + apply rec_invalidate_rl in E4. destruct E4 as [? ? ? ? ? ? ? ? ? ? Ef4 ? ? ?].
       unfold rec_checkin in E3. rewrite Ef4, R2' in E3. apply do_return_conn_rfairy in E3.
       rewrite E3, Ef4. exact R2'.
-    + inv E3. apply rec_invalidate_rl in E4. destruct E4. rewrite rl_fairy0. exact R2'.
+    + exfalso. pose proof (rec_invalidate_raise _ _ _ _ _ _ E4) as Tc.
+      destruct (rec_checkin cf r false s4) as [w s5] eqn:E5.
+      assert (s' = s5) by (destruct w; inv E3; auto). subst s5.
+      pose proof (Mono_taint_true _ _ (rec_checkin_mono cf _ _ _ _ _ E5) (tc_taint _ Tc)). congruence.
 Qed.
 
 
@@ -147,7 +150,7 @@ Proof.
   - intros a b R HA. eapply A_rl; eauto.
   - intros a HA. apply (A_frame cf None a); auto. unfold taint; cbn. intros _. apply orb_true_r.
   - intros r0 a y b _ Hc HA. eapply rec_checkin_A; eauto. intros; discriminate.
-  - intros f a _ HA. apply (A_frame cf None a); auto.
+  - intros a HA. unfold clear_fairy. destruct fy; [apply (A_frame cf None a); auto|exact HA].
 Qed.
 
 Lemma finalize_A : forall dbc r gcf twr fy s x s', finalize cf dbc r gcf twr fy s = (x, s') -> A None s ->
@@ -156,45 +159,40 @@ Lemma finalize_A : forall dbc r gcf twr fy s x s', finalize cf dbc r gcf twr fy 
                 taint s' = false -> r_fairy s' r0 = Some f).
 Proof.
   intros dbc r gcf twr fy s x s' H HA. split; [eapply finalize_A1; eauto|].
-  intros f r0 -> -> -> Hl Hl' T.
-  pose proof (finalize_mono cf _ _ _ _ _ _ _ _ H) as MM.
-  unfold finalize in H. cbv iota in H.
+  intros f r0 -> -> -> Hl Hl' T. exfalso.
+  unfold finalize in H. cbv iota in H. unfold clear_fairy in H.
+  (* a check-in of r0 while it belongs to f ends either with the fairy cleared or tainted *)
+  assert (CK : forall a y b, r_fairy a r0 = Some f ->
+    match r_fairy a r0 with Some _ => rec_checkin cf r0 true a | None => (Ok tt, a) end = (y, b) ->
+    match y with Ok _ => True | Raise _ => taint b = true end).
+  { intros a y b Ha Hc. rewrite Ha in Hc. destruct y; auto.
+    unfold rec_checkin in Hc. rewrite Ha in Hc. eapply do_return_conn_raise; eauto. }
+  assert (CL : forall b, f_rec (set_f_rec (set_f_dbc b (upd (f_dbc b) f None)) (upd (f_rec b) f None)) f = None)
+    by (intros b; change (upd (f_rec b) f None f = None); apply upd_same).
   match type of H with (let '(_, _) := ?e in _) = _ => destruct e as [y s1] eqn:E0 end.
-  (* the middle part keeps the fairy_ref, or taints *)
-  assert (M0 : (r_fairy s1 = r_fairy s /\ f_rec s1 = f_rec s) \/ (taint s1 = true /\ exists e, y = Raise e)).
+  assert (M0 : (y = Ok tt /\ r_fairy s1 = r_fairy s) \/
+               (exists e, y = Raise e /\ (taint s1 = true \/ f_rec s1 f = None))).
   { match type of E0 with match ?d with _ => _ end = _ => destruct d as [c|] end; [|inv E0; auto].
     match type of E0 with (let '(_, _) := ?e in _) = _ => destruct e as [y1 s2] eqn:E1 end.
     assert (M1 : RecLevel s s2).
     { destruct (fairy_reset cf c twr s) as [z s3] eqn:Er. apply fairy_reset_rl in Er.
       destruct z; inv E1; auto. }
-    destruct y1 as [|e]; [inv E0; left; destruct M1; unfold f_rec; rewrite rl_fr; auto|].
+    destruct y1 as [|e]; [inv E0; left; destruct M1; auto|].
     match type of E0 with (let '(_, _) := ?e in _) = _ => destruct e as [z s3] eqn:E2 end.
-    cbn [negb andb] in E2.
-    set (sa := if negb (is_exception e) then set_taint_reset s2 true else s2) in *.
     pose proof (rec_invalidate_rl _ _ _ _ _ _ E2) as R3.
-    assert (Rf : r_fairy s3 = r_fairy s /\ f_rec s3 = f_rec s).
-    { destruct R3, M1. split; [rewrite rl_fairy; subst sa; destruct (negb (is_exception e)); exact rl_fairy0|].
-      unfold f_rec. rewrite rl_fr. subst sa. destruct (negb (is_exception e)); cbn; rewrite rl_fr0; reflexivity. }
+    assert (Rf : r_fairy s3 = r_fairy s) by (destruct R3, M1; congruence).
     destruct z as [|e2].
-    2:{ inv E0. right. split; [apply tc_taint; eapply rec_invalidate_raise; eauto|eauto]. }
+    2:{ inv E0. right. eexists. split; [reflexivity|]. left. apply tc_taint. eapply rec_invalidate_raise; eauto. }
     destruct (is_exception e) eqn:Ee; [inv E0; auto|].
-    (* a BaseException out of the reset of an explicitly returned fairy: tainted *)
-    assert (T3 : taint s3 = true).
-    { destruct R3. unfold taint. rewrite rl_tg. subst sa. cbn. apply orb_true_r. }
-    right. destruct (r_fairy s3 r0).
-    - destruct (rec_checkin cf r0 true s3) as [w s4] eqn:Ec.
-      pose proof (Mono_taint_true _ _ (rec_checkin_mono cf _ _ _ _ _ Ec) T3).
-      unfold reraise_after in E0. destruct w; inv E0; eauto.
-    - inv E0. eauto. }
-  destruct M0 as [[F0 G0]|[T1 [e ->]]].
-  2:{ inv H. congruence. }
-  destruct y as [|e]; [|inv H; congruence].
-  rewrite F0, Hl in H.
-  destruct (rec_checkin cf r0 true s1) as [w s2] eqn:E1.
-  destruct w as [|e].
-  - inv H. change (upd (f_rec s2) f None f = Some r0) in Hl'. rewrite upd_same in Hl'. discriminate.
-  - inv H. unfold rec_checkin in E1. rewrite F0, Hl in E1.
-    apply do_return_conn_raise in E1. congruence.
+    match type of E0 with match ?e with _ => _ end = _ => destruct e as [w s4] eqn:Ec end.
+    pose proof (CK _ _ _ ltac:(rewrite Rf; exact Hl) Ec) as Hw.
+    right. destruct w; inv E0; eexists; (split; [reflexivity|]); auto. }
+  destruct M0 as [[-> F0]|[e [-> [T1|F1]]]].
+  - match type of H with match ?e with _ => _ end = _ => destruct e as [w s2] eqn:E1 end.
+    pose proof (CK _ _ _ ltac:(rewrite F0; exact Hl) E1) as Hw.
+    destruct w; inv H; [rewrite CL in Hl'; discriminate|congruence].
+  - inv H. congruence.
+  - inv H. congruence.
 Qed.
 
 Lemma fairy_checkin_A : forall f twr s x s', fairy_checkin cf f twr s = (x, s') -> A None s ->
@@ -638,7 +636,7 @@ Proof.
 Qed.
 
 (* overflow_consistent: after any history and any fault script, unless a BaseException has escaped a
-   DBAPI close() or the reset of an explicitly returned fairy: checkedout() is exactly the number of records in use, idle records never exceed
+   DBAPI close(): checkedout() is exactly the number of records in use, idle records never exceed
    pool_size, the overflow counter stays within [-pool_size, max_overflow] *)
 Theorem overflow_consistent : forall fl ops,
   let s := run cf ops (init cf fl) in
@@ -659,7 +657,7 @@ Theorem no_leak_checkedout : forall fl ops,
   taint s = false -> all_released s -> checkedout cf s = 0.
 Proof.
   intros fl ops s T R.
-  assert (Tc : taint_close s = false) by (unfold taint in T; apply orb_false_iff in T; tauto).
+  assert (Tc : taint_gc s = false) by (unfold taint in T; apply orb_false_iff in T; tauto).
   destruct (overflow_consistent fl ops T) as [H _]. fold s in H. rewrite H.
   pose proof (no_leak cf fl ops Tc R) as H0. fold s in H0. rewrite H0. reflexivity.
 Qed.
